@@ -17,6 +17,7 @@ import (
 	"errors"
 	"fmt"
 	"io"
+	"math"
 	"os"
 	"os/exec"
 	"runtime"
@@ -283,6 +284,27 @@ func frame(typ string, blob []byte, datasize int64, prefix int64) []byte {
 	return append(out, blob...)
 }
 
+// paddedFrame writes a fileblock whose BlobHeader is well formed and exactly
+// size bytes long (type, indexdata padding, datasize).
+func paddedFrame(typ string, blob []byte, size int) []byte {
+	for pad := size; pad >= 0; pad-- {
+		var h pbfgen.W
+		h.Bytes(1, []byte(typ))
+		h.Bytes(2, make([]byte, pad))
+		h.Varint(3, uint64(len(blob)))
+		if len(h.B) == size {
+			out := make([]byte, 4)
+			binary.BigEndian.PutUint32(out, uint32(size))
+			out = append(out, h.B...)
+			return append(out, blob...)
+		}
+		if len(h.B) < size {
+			break
+		}
+	}
+	panic("paddedFrame: size not reachable")
+}
+
 // damage builds the damaged stream; nbefore = number of intact data blocks
 // before the damage; skip != "" when the class does not apply to this file.
 func damage(f *pbfgen.File, j *Job) (data []byte, nbefore int, skip string) {
@@ -331,6 +353,11 @@ func damage(f *pbfgen.File, j *Job) (data []byte, nbefore int, skip string) {
 		var n int64 = 64 * 1024
 		if j.Arg == "max" {
 			n = 0xFFFFFFFF
+		}
+		if j.Arg == "64k-padded" {
+			// a well-formed BlobHeader of exactly 64 KiB (indexdata padding):
+			// "must be less than 64 KiB" - the first size a reader has to refuse
+			return replace(paddedFrame(typ, blob, 64*1024)), nbefore, ""
 		}
 		return replace(frame(typ, blob, int64(len(blob)), n)), nbefore, ""
 	case "datasize-too-big":
@@ -523,10 +550,17 @@ func damage(f *pbfgen.File, j *Job) (data []byte, nbefore int, skip string) {
 		if pos >= 0 {
 			tl = uint64(f.Blocks[pos].StringTableLen())
 		}
-		place := j.Arg
+		place, how, _ := strings.Cut(j.Arg, ":")
 		mu := &pbfgen.Mutator{StringIndex: func(p string, idx uint64) uint64 {
 			if p == place && !applied {
 				applied = true
+				switch how {
+				case "neg": // a small negative reference (keys_vals is a signed column)
+					return ^uint64(idx % 7)
+				case "min":
+					min := int64(math.MinInt32)
+					return uint64(min)
+				}
 				return idx + tl
 			}
 			return idx
@@ -808,7 +842,7 @@ var procsCycle = []int{1, 2, 5, 16}
 type damageSpec struct{ Kind, Arg string }
 
 var damageClasses = []damageSpec{
-	{"header-size-too-big", "64k"}, {"header-size-too-big", "max"},
+	{"header-size-too-big", "64k"}, {"header-size-too-big", "max"}, {"header-size-too-big", "64k-padded"},
 	{"datasize-too-big", "32m"}, {"datasize-too-big", "max"},
 	{"datasize-negative", "-1"}, {"datasize-negative", "min"},
 	{"raw-size-wrong", "more"}, {"raw-size-wrong", "less"}, {"raw-size-wrong", "field-boundary"},
@@ -821,6 +855,7 @@ var damageClasses = []damageSpec{
 	{"column-length", "dense.keyvals"}, {"column-length", "way.lat:extend"}, {"column-length", "way.lon:extend"},
 	{"column-length", "way.vals"}, {"column-length", "rel.vals"}, {"column-length", "rel.memids"}, {"column-length", "rel.types"},
 	{"string-index", "dense.user"}, {"string-index", "dense.key"}, {"string-index", "dense.val"},
+	{"string-index", "dense.key:neg"}, {"string-index", "dense.key:min"}, {"string-index", "dense.val:neg"},
 	{"string-index", "way.key"}, {"string-index", "way.val"}, {"string-index", "way.user"},
 	{"string-index", "rel.key"}, {"string-index", "rel.val"}, {"string-index", "rel.user"}, {"string-index", "rel.role"},
 	{"plain-nodes", ""}, {"missing-stringtable", ""},
